@@ -366,6 +366,37 @@ func fanTouch(r *run.Rng) poly {
 	return p
 }
 
+// multiComponent: a touch graph with several connected components: optionally a cycle of three holes
+// touching pairwise (interior disconnected), plus separate pairs of holes that touch each other only.
+func multiComponent(r *run.Rng) poly {
+	side := 30
+	p := poly{ring{{0, 0}, {side, 0}, {side, side}, {0, side}, {0, 0}}}
+	tri := func(x, y int) ring { return ring{{x, y}, {x + 4, y}, {x + 2, y + 3}, {x, y}} }
+	if r.Chance(2, 3) { // the cycle: three triangles enclosing the triangle (8 4),(6 7),(10 7)
+		p = append(p, tri(4, 4), tri(8, 4))
+		if r.Chance(3, 4) {
+			p = append(p, tri(6, 7))
+		}
+	}
+	for j, n := 0, r.Range(0, 3); j < n; j++ { // pairs touching at one vertex
+		y := 13 + 5*j
+		p = append(p, tri(3, y), tri(7, y))
+	}
+	for j, n := 0, r.Range(0, 2); j < n; j++ { // chains of three (a path, no cycle)
+		y := 4 + 6*j
+		p = append(p, tri(16, y), tri(20, y), tri(24, y))
+	}
+	holes := p[1:]
+	for i := len(holes) - 1; i > 0; i-- {
+		j := r.Intn(i + 1)
+		holes[i], holes[j] = holes[j], holes[i]
+	}
+	for i := range holes {
+		holes[i] = rot(holes[i], r.Intn(len(holes[i])-1), r.Bool())
+	}
+	return p
+}
+
 // ---------- monitors ----------
 
 type candidate struct {
@@ -1049,6 +1080,11 @@ func runAll(c *run.Ctx) {
 	for i := 0; i < c.N(4000, 40000); i++ {
 		c.Case("inscribed", i, func(k *run.K) {
 			judge(k, candidate{kind: "MultiPolygon", polys: inscribed(k.Rng)}, c.N(8, 16), false)
+		})
+	}
+	for i := 0; i < c.N(1500, 20000); i++ {
+		c.Case("multi-component", i, func(k *run.K) {
+			judge(k, candidate{kind: "Polygon", polys: []poly{multiComponent(k.Rng)}}, c.N(4, 10), false)
 		})
 	}
 	for i := 0; i < c.N(3000, 30000); i++ {
